@@ -1020,7 +1020,7 @@ func TestVerif_C05(t *testing.T) {
 							res.Count("mux_redirects", 1)
 						}
 						if kind == "" {
-							if matching > 1 && res.Evaluations%4099 == 0 {
+							if matching > 1 && o.R >= 0 && res.Evaluations%1009 == 0 {
 								res.Sample(4, map[string]any{"case": c.String(), "observed": o.String()})
 							}
 							continue
